@@ -13,7 +13,10 @@
 //!        g | t | r     client: get_next_message(Nonblock) | get_next_message(Duration(1ms)) |
 //!                      read_once(Nonblock)
 //!        T | i         client: get_next_message(Duration(5 s)) | get_next_message(Infinite); only scheduled
-//!                      when a complete message is already queued (watchdog: 20 s)
+//!                      when a complete message is already queued
+//!   every `run` case has a deadline (C09_CASE_MS, default 3000 ms; a hang detector only: no operation of a
+//!   schedule waits for anything that is not already there): on expiry the result is HANG <results so far are
+//!   lost> and the next case runs on a fresh connection; after 3 such cases the rest of the input is SKIPPED
 //!        -> one result per client op (comma separated):  M<canon>~<fd labels> | T | K | E<variant>
 //!           fd label = <msg index>.<position> found by fstat (dev, ino); ? when unknown
 //!   kprobe <hex:nfds;hex:nfds...> <req.req...>    raw socketpair: write the segments, then one
@@ -240,20 +243,7 @@ fn run(stream: &[u8], nfds: &[usize], events: &str) -> String {
                     "T" => Timeout::Duration(std::time::Duration::from_secs(5)),
                     _ => Timeout::Infinite,
                 };
-                let armed = std::sync::Arc::new(std::sync::atomic::AtomicBool::new(ev == "i"));
-                if ev == "i" {
-                    // hang detector for the blocking read: the data is there, so it returns at once
-                    let a = armed.clone();
-                    std::thread::spawn(move || {
-                        std::thread::sleep(std::time::Duration::from_secs(20));
-                        if a.load(std::sync::atomic::Ordering::SeqCst) {
-                            println!("HANG get_next_message(Infinite) did not return within 20 s although a complete message was queued");
-                            std::process::exit(3);
-                        }
-                    });
-                }
                 let res = recv.get_next_message(tmo);
-                armed.store(false, std::sync::atomic::Ordering::SeqCst);
                 match res {
                     Ok(msg) => {
                         let labels: Vec<String> = msg
@@ -349,18 +339,36 @@ fn kprobe(segs: &str, reqs: &str) -> String {
 }
 
 fn main() {
-    rbverif::line_loop(|line| {
+    let case_ms: u64 = std::env::var("C09_CASE_MS").ok().and_then(|v| v.parse().ok()).unwrap_or(3000);
+    let mut hangs = 0;
+    rbverif::line_loop(move |line| {
         let parts: Vec<&str> = line.split(' ').collect();
         match parts[0] {
             "build" => parts[1].split('|').map(build_one).collect::<Vec<_>>().join("|"),
             "run" => {
+                if hangs >= 3 {
+                    return "SKIPPED".to_string();
+                }
                 let stream = unhex(parts[1]);
                 let nfds: Vec<usize> = if parts[2] == "-" {
                     vec![]
                 } else {
                     parts[2].split('.').map(|x| x.parse().unwrap()).collect()
                 };
-                run(&stream, &nfds, parts.get(3).copied().unwrap_or(""))
+                let events = parts.get(3).copied().unwrap_or("").to_string();
+                // the case runs in a thread of its own; a receive call that never returns costs one deadline, not the run
+                let (tx, rx) = std::sync::mpsc::channel();
+                std::thread::spawn(move || {
+                    let r = std::panic::catch_unwind(|| run(&stream, &nfds, &events));
+                    let _ = tx.send(r.unwrap_or_else(|_| "PANIC in the receive path".to_string()));
+                });
+                match rx.recv_timeout(std::time::Duration::from_millis(case_ms)) {
+                    Ok(r) => r,
+                    Err(_) => {
+                        hangs += 1;
+                        "HANG".to_string()
+                    }
+                }
             }
             "kprobe" => kprobe(parts[1], parts[2]),
             _ => "?".to_string(),
